@@ -26,6 +26,8 @@ CACHE_PROBLEMS = [
     ("y(i) = A(i,j) * x(j)", [("y", "s0"), ("A", "d0s1"), ("x", "d0")]),
     ("a(i) = b(i) + c(i)", [("a", "s0"), ("b", "s0"), ("c", "s0")]),
     ("a(i,j) = b(i,j) * c(i,j)", [("a", "d0s1"), ("b", "d0s1"), ("c", "d0d1")]),
+    ("a(i) = b(i) - c(i)", [("a", "d0"), ("b", "s0"), ("c", "d0")]),
+    ("a(i,j) = b(i,j) + c(i,j)", [("a", "d0d1"), ("b", "d0s1"), ("c", "d1d0")]),
 ]
 
 
@@ -153,6 +155,21 @@ def run(tier, seed):
             chosen = rng.sample(cells, max(1, len(cells) // 2))
             inputs[name] = [dict(fm)[name], [dims[x] for x in idx], [[list(c), float(rng.choice([1, 2, -1, 0.5]))] for c in sorted(chosen)]]
         res_reqs.append({"id": f"R{i}", "text": text, "output_format": dict(fm)[asg["target"]], "inputs": inputs, "input_id": "x0"})
+    # the same assignment and output format evaluated again with the formats of two same-order inputs EXCHANGED and the
+    # keyword arguments given in the opposite order: a different problem, which must get its own kernel
+    swapped = []
+    for rr in list(res_reqs):
+        names = list(rr["inputs"])
+        pair = next(((x, y) for x in names for y in names if x < y and len(rr["inputs"][x][1]) == len(rr["inputs"][y][1])
+                     and rr["inputs"][x][0] != rr["inputs"][y][0]), None)
+        if pair is None:
+            continue
+        x, y = pair
+        ins = {n: list(v) for n, v in rr["inputs"].items()}
+        ins[x][0], ins[y][0] = rr["inputs"][y][0], rr["inputs"][x][0]
+        swapped.append({"id": rr["id"] + "s", "text": rr["text"], "output_format": rr["output_format"],
+                        "inputs": {n: ins[n] for n in reversed(names)}, "input_id": "x0"})
+    res_reqs += swapped
     for rr in res_reqs:
         cache_actions.append({"act": "result", "req": rr})
     for rr in res_reqs:
